@@ -460,36 +460,48 @@ static int notify_fetching_peer(const struct element *e, const struct fetch *f,
 	if (unlikely(fetch_id == NULL)) {
 		goto error;
 	}
-	cJSON_AddItemToObject(root, "method", fetch_id);
+	if (unlikely(add_item_to_object(root, "method", fetch_id) < 0)) {
+		goto error;
+	}
 
 	cJSON *param = cJSON_CreateObject();
 	if (unlikely(param == NULL)) {
 		goto error;
 	}
-	cJSON_AddItemToObject(root, "params", param);
+	if (unlikely(add_item_to_object(root, "params", param) < 0)) {
+		goto error;
+	}
 
 	if (element_is_fetch_only(e)) {
-		cJSON_AddTrueToObject(param, "fetchOnly");
+		if (unlikely(cJSON_AddTrueToObject(param, "fetchOnly") == NULL)) {
+			goto error;
+		}
 	}
 
 	cJSON *path = cJSON_CreateString(e->path);
 	if (unlikely(path == NULL)) {
 		goto error;
 	}
-	cJSON_AddItemToObject(param, "path", path);
+	if (unlikely(add_item_to_object(param, "path", path) < 0)) {
+		goto error;
+	}
 
 	cJSON *event = cJSON_CreateString(event_name);
 	if (unlikely(event == NULL)) {
 		goto error;
 	}
-	cJSON_AddItemToObject(param, "event", event);
+	if (unlikely(add_item_to_object(param, "event", event) < 0)) {
+		goto error;
+	}
 
 	if (e->value != NULL) {
 		cJSON *value = cJSON_Duplicate(e->value, 1);
 		if (unlikely(value == NULL)) {
 			goto error;
 		}
-		cJSON_AddItemToObject(param, "value", value);
+		if (unlikely(add_item_to_object(param, "value", value) < 0)) {
+			goto error;
+		}
 	}
 
 	char *rendered_message = cJSON_PrintUnformatted(root);
@@ -554,7 +566,11 @@ static int get_element(const struct peer *p, const struct cJSON *request, const 
 				*response = create_error_response_from_request(p, request, INTERNAL_ERROR, "reason", "could not allocate memory for path object");
 				return -1;
 			}
-			cJSON_AddItemToObject(root, "path", path);
+			if (unlikely(add_item_to_object(root, "path", path) < 0)) {
+				cJSON_Delete(root);
+				*response = create_error_response_from_request(p, request, INTERNAL_ERROR, "reason", "could not allocate memory for path object");
+				return -1;
+			}
 
 			cJSON *value = cJSON_Duplicate(e->value, 1);
 			if (unlikely(value == NULL)) {
@@ -563,7 +579,11 @@ static int get_element(const struct peer *p, const struct cJSON *request, const 
 				return -1;
 			}
 
-			cJSON_AddItemToObject(root, "value", value);
+			if (unlikely(add_item_to_object(root, "value", value) < 0)) {
+				cJSON_Delete(root);
+				*response = create_error_response_from_request(p, request, INTERNAL_ERROR, "reason", "could not allocate memory for value");
+				return -1;
+			}
 
 			cJSON_AddItemToArray(states, root);
 		}
